@@ -48,4 +48,7 @@ def tasks(tier):
         t.append(dict(module="scal", fn="h_kkt", shape=dict(W0=2, n=1, m=2, unwind=U), opts=o(8, 24, sqrt_model="lazy")))
     for kind in ("GradJac", "Nominal"):
         t.append(dict(module="scal", fn="h_dispatch", shape=dict(W0=3, kind=kind), opts=o(8, 24)))
+        t.append(dict(module="scal", fn="h_dispatch", shape=dict(W0=3, kind=kind, cons=[]), opts=o(8, 24)))
+    t.append(dict(module="scal", fn="h_dispatch", shape=dict(W0=3, kind="KKT", unwind=U), opts=o(8, 24, sqrt_model="lazy")))
+    t.append(dict(module="scal", fn="h_dispatch", shape=dict(W0=3, kind="KKT", cons=[], unwind=U), opts=o(8, 24, sqrt_model="lazy")))
     return t
